@@ -35,6 +35,13 @@ DIRNAMES = ["src", "include", "third-party", "build", "a b", "x[1]", "d*r", "q?"
 BASENAMES = ["main", "util", "a b", "x[1]", "st*r", "q?x", "!neg", "#h", "foo", "Foo", "bar", ".hidden", "a.b", "-dash", "e2", "~", "$x", "%TEMP%", "two\nlines", "cr\rname", "tab\tname"]
 
 
+def ext_of(path):
+    """The extension in the sense the code base uses (pathlib): what follows the last dot of a name that has something
+    in front of that dot -- `..c` and `a..c` have the extension .c, the hidden files `.c` and `.h` have none."""
+    import pathlib
+    return pathlib.PurePosixPath(path).suffix
+
+
 def bounds(tier):
     return {"trees": 1600 if tier == "quick" else 24000, "manual_lists": True}
 
@@ -47,7 +54,8 @@ def required_cells(tier):
              "spell:absolute", "spell:relative-root", "spell:relative-other-cwd", "spell:dot", "spell:dotdot", "spell:via-link", "spell:same-spelling-other-cwd",
              "member:yes", "member:no-extension", "member:no-excluded", "member:no-outside", "member:no-directory",
              "member:no-missing", "iter", "outside:sibling-with-root-prefix", "name:vcs-directory", "name:tilde-first",
-             "patterns:extended-after-first-use", "patterns:default-list-mutated-on-another-object", "name:canonically-equivalent-spellings"]
+             "patterns:extended-after-first-use", "patterns:default-list-mutated-on-another-object", "name:canonically-equivalent-spellings",
+             "multi-directory:non-existent-directory-listed", "name:dots-and-extension"]
     return cells
 
 
@@ -134,7 +142,7 @@ def gen_patterns(rng, tree):
         elif k == "dir-only":
             p = esc(os.path.basename(d)) + "/" if rng.random() < 0.6 else esc(d) + "/"
         elif k == "star":
-            ext = os.path.splitext(base)[1]
+            ext = ext_of(base)
             p = rng.choice(["*" + esc(ext) if ext else "*", esc(base[:1]) + "*", "*" + esc(base[-2:]), esc(d) + "/*"])
         elif k == "question":
             p = esc(base[:-1]) + "?" if len(base) > 1 else "?"
@@ -154,7 +162,7 @@ def gen_patterns(rng, tree):
         elif k == "comment":
             p = "# " + base
         elif k == "negation":
-            p = "!" + rng.choice([esc(base), "*" + esc(os.path.splitext(base)[1]), esc(f)])
+            p = "!" + rng.choice([esc(base), "*" + esc(ext_of(base)), esc(f)])
         elif k == "reinclude":
             top = f.split("/")[0] if "/" in f else None
             if top is None:
@@ -172,7 +180,7 @@ def gen_patterns(rng, tree):
             p = rng.choice(["", "  "])
             k = "comment"
         if "\n" in p or "\r" in p:
-            p = "*" + os.path.splitext(base)[1] if "." in base else "*"      # (a pattern is one line of text)
+            p = "*" + ext_of(base) if "." in base else "*"      # (a pattern is one line of text)
         if k == "anchored" and rng.random() < 0.15:
             p = "@ROOT@" + p                    # replaced by the absolute path of the code-base directory at check time
             feats.add("pat:absolute-path-of-the-root-as-prefix")
@@ -251,7 +259,7 @@ def expected_member(root, realroot, path, cwd, ignored_cache):
         return False, "directory", None
     if not os.path.isfile(real):
         return False, "not-regular", None
-    if os.path.splitext(real)[1] not in EXTENSIONS:
+    if ext_of(real) not in EXTENSIONS:
         return False, "extension", None
     if not (real + "/").startswith(realroot + "/") or real == realroot:
         return False, "outside", None
@@ -385,13 +393,13 @@ def check_case(ctx, git, tree, patterns, feats, base, cls):
         for dp, dn, fn in os.walk(realroot):
             for name in fn:
                 cand.add(os.path.join(dp, name))
-        relc = {os.path.relpath(c, realroot): c for c in cand if os.path.splitext(c)[1] in EXTENSIONS and os.path.isfile(c)}
+        relc = {os.path.relpath(c, realroot): c for c in cand if ext_of(c) in EXTENSIONS and os.path.isfile(c)}
         real_members = set()
         ign2 = git.ignored(realroot, patterns, sorted({os.path.relpath(os.path.realpath(c), realroot) for c in relc.values()
                                                        if (os.path.realpath(c) + "/").startswith(realroot + "/")}))
         for r, c in relc.items():
             rc = os.path.realpath(c)
-            if (rc + "/").startswith(realroot + "/") and os.path.isfile(rc) and os.path.splitext(rc)[1] in EXTENSIONS:
+            if (rc + "/").startswith(realroot + "/") and os.path.isfile(rc) and ext_of(rc) in EXTENSIONS:
                 if not ign2.get(os.path.relpath(rc, realroot), False):
                     real_members.add(rc)
         if listed_real != real_members:
@@ -455,10 +463,15 @@ def check_multi_directory(ctx, git, tree, patterns, root, realroot):
     pair = next(((a, b) for a in tops for b in tops if a != b and b.startswith(a)), (tops[0], tops[1]))
     dirs = [os.path.join(realroot, x) for x in pair]
     cells = {"multi-directory-code-base"}
+    given = list(dirs)
+    if len(tree["files"]) % 2 == 1:
+        # a directory that does not exist (a stale entry of a configuration) between the two: it contributes nothing
+        given = [dirs[0], os.path.join(realroot, "no-such-directory"), dirs[1], os.path.join(realroot, "gone", "too")]
+        cells.add("multi-directory:non-existent-directory-listed")
     if pair[1].startswith(pair[0]):
         cells.add("multi-directory:name-prefix-related")
     try:
-        cb = CodeBase(*dirs, exclude_patterns=list(patterns))
+        cb = CodeBase(*given, exclude_patterns=list(patterns))
     except Exception as e:
         acc.violated({"input": {"tree": tree, "patterns": patterns, "directories": list(pair)},
                       "witness": {"observed": f"constructor {type(e).__name__}: {e}"}}, mechanism=classify(patterns, f"{type(e).__name__}: {e}", None), cells=cells, cls="multi")
@@ -477,7 +490,7 @@ def check_multi_directory(ctx, git, tree, patterns, root, realroot):
     for c in cand:
         real = os.path.realpath(c)
         home = next((d for d in dirs if (real + "/").startswith(d + "/")), None)
-        exp = bool(home) and os.path.isfile(real) and os.path.splitext(real)[1] in EXTENSIONS and not ign_by_dir[home].get(os.path.relpath(real, home), False)
+        exp = bool(home) and os.path.isfile(real) and ext_of(real) in EXTENSIONS and not ign_by_dir[home].get(os.path.relpath(real, home), False)
         want[c] = exp
         try:
             obs = c in cb
@@ -486,7 +499,7 @@ def check_multi_directory(ctx, git, tree, patterns, root, realroot):
         acc.hook("H-contains")
         if obs is not exp:
             rel = os.path.relpath(real, home) if home else None
-            problems.append({"query": c, "expected": exp, "observed": obs, "reason": "excluded" if (home and not exp and os.path.splitext(real)[1] in EXTENSIONS) else "member" if exp else "outside",
+            problems.append({"query": c, "expected": exp, "observed": obs, "reason": "excluded" if (home and not exp and ext_of(real) in EXTENSIONS) else "member" if exp else "outside",
                              "parent_dir_ignored": bool(home) and any(ign_by_dir[home].get("/".join(rel.split("/")[:i])) for i in range(1, len(rel.split("/")))),
                              "cwd": realroot, "multi": list(pair)})
     try:
@@ -513,7 +526,7 @@ def check_multi_directory(ctx, git, tree, patterns, root, realroot):
                         real = os.path.realpath(p0["query"])
                         home = next((d for d in dirs if (real + "/").startswith(d + "/")), None)
                         ign2 = git.ignored(home, p2, [os.path.relpath(real, home)]) if home else {}
-                        exp2 = bool(home) and os.path.isfile(real) and os.path.splitext(real)[1] in EXTENSIONS and \
+                        exp2 = bool(home) and os.path.isfile(real) and ext_of(real) in EXTENSIONS and \
                             not ign2.get(os.path.relpath(real, home), False)
                         p0["agrees_without_posix_class_patterns"] = (p0["query"] in CodeBase(*dirs, exclude_patterns=p2)) is exp2
                     except Exception:
@@ -594,13 +607,15 @@ def run_shard(ctx):
     # this file system; git compares bytes)
     nfc, nfd = "caf\u00e9", "cafe\u0301"
     twin_tree = {"dirs": ["", "src", nfc, "src/" + nfd], "files": [f"src/{nfc}.c", f"src/{nfd}.c", f"{nfc}/x.c", f"src/{nfd}/y.h", "src/cafe.c",
-                                                                   "\u00c5.c", "A\u030a.c", "\u212b.c"],
+                                                                   "\u00c5.c", "A\u030a.c", "\u212b.c",
+                                                                   # names made of dots and an extension; hidden files named like an extension
+                                                                   "src/..c", "...h", "src/..F90", ".c", "src/.h", ".inc", "a..c", "src/.hidden.cpp", "..", "src/.c.c"][:-2] + ["src/.c.c"],
                  "links": {}, "outside": [], "link_kinds": []}
     for j, pats in enumerate([[f"src/{nfc}.c"], [f"*/{nfd}.c"], [f"{nfc}/"], [f"{nfd}/"], [f"src/{nfd}/"], ["caf?.c"], ["caf??.c"], [f"{nfc}*", f"!{nfd}.c"],
-                              ["\u00c5.c"], ["A\u030a.c"], ["\u212b.c"], [f"/src/{nfd}.c", f"!/src/{nfc}.c"], [f"**/{nfc}.c"], []]):
+                              ["\u00c5.c"], ["A\u030a.c"], ["\u212b.c"], [f"/src/{nfd}.c", f"!/src/{nfc}.c"], [f"**/{nfc}.c"], [], ["*.c"], ["..c", "!...h"], [".*"], ["*.h", ".c"]]):
         i += 1
         if ctx.mine(i):
-            check_case(ctx, git, twin_tree, pats, {"name:canonically-equivalent-spellings"}, base, "manual")
+            check_case(ctx, git, twin_tree, pats, {"name:canonically-equivalent-spellings", "name:dots-and-extension"}, base, "manual")
     for i in range(b["trees"]):
         tree = gen_tree(rng)
         pats, feats = gen_patterns(rng, tree)
